@@ -86,11 +86,12 @@ Valid(c) ==
 ValidCases == {c \in Case : Valid(c)}
 
 ---------------------------------------------------------------------------
-(* facet and vertex integrals (C02, C03) *)
+(* facet, vertex and ridge integrals (C02, C03) *)
 FCells == Cells \cup {"prism"}
-Measures == {"ds", "dS", "dP"}
+Measures == {"ds", "dS", "dP", "dr"}          \* dr: ridges = sub-entities of codimension 2 (ufl.Measure("ridge"))
 FTerms == {"mass", "flux", "coef", "xw", "nload", "fload", "area", "geods",  \* ds / dP
-           "jump", "avgflux", "pm", "coefpm", "jumpload", "njump", "geodS"}   \* dS
+           "jump", "avgflux", "pm", "coefpm", "jumpload", "njump", "geodS",   \* dS
+           "rgrad"}                                                          \* dr: inner(grad u, grad v)
 FRank(t) == CASE t \in {"nload", "fload", "jumpload"} -> 1 [] t = "area" -> 0 [] OTHER -> 2
 FElems == {"P1", "P2", "DG0", "DG1", "vP1", "RT1", "N1", "TH"}
 FCase == [cell : FCells, elem : FElems, term : FTerms, measure : Measures, rule : {"exact", "custom", "vertex"}]
@@ -104,9 +105,17 @@ FValid(c) ==
   /\ (c.elem \in {"RT1", "N1", "TH"} => c.cell \in {"triangle", "tetrahedron"})
   /\ (c.term \in {"flux", "avgflux"} => c.elem \in {"P1", "P2", "DG1", "vP1"})
   /\ (c.term \in {"xw", "nload", "njump"} => c.elem \in {"P1", "P2", "DG1", "DG0"})
-  /\ (c.cell = "prism" => c.elem \in {"P1", "DG0"} /\ c.measure = "ds" /\ c.rule = "exact"
+  /\ (c.cell = "prism" => c.elem \in {"P1", "DG0"} /\ c.measure \in {"ds", "dr"} /\ c.rule = "exact"
                           \* ffcx has no reference facet normals for prisms ("Unhandled cell types prism": a rejection)
-                          /\ c.term \in {"mass", "coef", "fload", "area"})
+                          /\ (c.measure = "ds" => c.term \in {"mass", "coef", "fload", "area"}))
+  \* ridge integrals: cells of dimension >= 2 (edges of 3D cells, vertices of 2D cells); there is no facet normal
+  \* on a ridge, so only the normal-free integrands ("xw" is realised as x[0] u v there); on a 2D cell the ridge is
+  \* a point and UFL drops the quadrature weight (scale = 1), so only the default one-point rule is meaningful
+  /\ (c.measure = "dr" => c.cell # "interval" /\ c.term \in {"mass", "coef", "xw", "fload", "area", "rgrad"}
+                          /\ (Tdim(c.cell) = 2 => c.rule = "exact")
+                          \* (basix's RT basis on the tetrahedron takes irrational values, multiples of sqrt 2, on some edges)
+                          /\ (c.cell = "tetrahedron" => c.elem # "RT1"))
+  /\ (c.term = "rgrad" => c.measure = "dr" /\ c.elem \in {"P1", "P2", "DG1", "vP1"})
   /\ (c.cell = "interval" => c.rule = "exact")
   /\ (c.rule = "vertex" => c.cell \in {"triangle", "tetrahedron", "quadrilateral"} /\ c.measure # "dP")
   /\ (c.cell = "hexahedron" => c.elem \in {"P1", "DG0", "DG1"})
